@@ -119,8 +119,10 @@ def r2_conflicts_are_errors(ctx):
     # StateError::panic is called by nobody else in the registry
     callers = {f.key for (f, bb, t) in F.callers_of(lambda c: c.get("key") == "mahf::state::registry::error::StateError::panic")}
     callers |= {f.key for (f, bi, c) in F.fn_refs(lambda c: c.get("key") == "mahf::state::registry::error::StateError::panic")}
-    allowed = {R + k for k in PANICKING} | {R + "get_multiple_mut"}
-    ctx.check(callers <= allowed, "C02.R2", "StateError::panic", "callers", "StateError::panic is used by %s; only the explicitly panicking accessors may panic" % sorted(callers - allowed),
+    # (which accessor panics is decided per accessor above; here: nothing of the non-panicking `try_` family reaches it, also not
+    # through a closure or a named accessor of State built on it)
+    offending = sorted(k for k in callers if any(seg.startswith("try_") for seg in k.replace("::{closure", "::").split("::")))
+    ctx.check(not offending, "C02.R2", "StateError::panic", "callers", "StateError::panic is used by %s: the try_ family must report errors, never panic" % offending,
               detail=str(sorted(callers)))
 
 
